@@ -54,8 +54,16 @@ class C10(Prop):
                 if any(q[0] == "c" for q in a_node["params"]):
                     values.append(["c", gen.rand_value(rng)])
                 rng.shuffle(values)
-                yield {"kind": "map", "program": inner, "values": values, "mapOver": mo, "mode": mode, "mapErr": rng.choice(["raise", "continue"]),
-                       "cfg": {}, "runner": rng.choice(["sync", "async"]), "k": rng.choice([None, 1, 2, 3]), "seed": rng.randint(0, 10**6)}
+                case = {"kind": "map", "program": inner, "values": values, "mapOver": mo, "mode": mode, "mapErr": rng.choice(["raise", "continue"]),
+                        "cfg": {}, "runner": rng.choice(["sync", "async"]), "k": rng.choice([None, 1, 2, 3]), "seed": rng.randint(0, 10**6)}
+                if a_node["body"]["b"] == "failGe" and rng.random() < 0.7:
+                    # several items fail, each with its own error, finishing in any order: raise mode must report the FIRST failing item in input order
+                    ln = rng.randint(3, 5)
+                    for v in values:
+                        if v[0] in mo:
+                            v[1] = {"l": rng.sample(range(0, 8), ln)} if v[0] == "x" else {"l": [rng.randint(0, 4) for _ in range(ln)]}
+                    case.update(mode="zip", mapErr="raise", runner=rng.choice(["async", "async", "sync"]), k=rng.choice([None, 2, 3, 4]))
+                yield case
 
     def impl(self, case: dict) -> Any:
         ctl = sched.Controller("random", case["seed"]) if case["runner"] == "async" else None
